@@ -774,6 +774,24 @@ func (e *Engine) verifyChain() *Fail {
 		}
 	}
 	disks := r.ListDisks()
+	// the chain the replica reports over REST (what rebuild, clone and the
+	// controller's verification consume) must be that same path
+	rc, err := r.DisplayChain()
+	if err != nil {
+		return fail("chain|reported|error", fmt.Sprintf("DisplayChain() failed after %s: %v", e.lastOp, err), "C12")
+	}
+	for i, d := range rc {
+		wantParent := ""
+		if i+1 < len(rc) {
+			wantParent = rc[i+1]
+		}
+		if di, ok := disks[d]; !ok || di.Parent != wantParent || (i == 0 && d != chain[0]) {
+			return fail("chain|reported|not-a-path|after="+e.lastOp, fmt.Sprintf("reported chain %v is not the path from the head to the base: %s has parent %q (chain %v)", rc, d, di.Parent, chain), "C12")
+		}
+	}
+	if len(rc) == 0 {
+		return fail("chain|reported|empty", "DisplayChain() is empty", "C12")
+	}
 	if len(disks) != len(chain) {
 		var extra []string
 		for d := range disks {
